@@ -92,7 +92,10 @@ class Check(PropertyCheck):
     trusted_base = ["ruamel.yaml dump/load, ipaddress, the idna and utf-8 codecs, https_records pack/unpack as codec parameters with partial-inverse laws",
                     "mitmproxy.dns pack/unpack as the decoder of the re-encoded message (inputs it does not reproduce are skipped)",
                     "content view bodies (Python and Rust) are arbitrary functions"]
-    parallel = True
+    parallel = True          # thorough tier only (see setup): under load the fork pool is slower than in-process for short runs
+
+    def setup(self, tier):
+        self.parallel = (tier == "thorough")
 
     # ---------------------------------------------------------------- translator
     def translate(self):
